@@ -60,7 +60,8 @@ def units_for(pid, registry):
     units = []
     for key, c in registry.items():
         if pid in getattr(c, "property_ids", ()):
-            for label, cfg in c.configs_for(pid) if hasattr(c, "configs_for") else c.configs():
+            tier = os.environ.get("PYVC_TIER", "quick")
+            for label, cfg in c.configs_for(pid, tier) if hasattr(c, "configs_for") else c.configs():
                 units.append((key, label))
     return units
 
@@ -72,8 +73,72 @@ def _sha(path):
     return h.hexdigest()
 
 
-# ------------------------------------------------------------------ stage 1 (worker): symbolic execution of one unit
+_tree_hash = None
+
+
+def tree_hash():
+    """content hash of everything the symbolic-execution stage depends on: the repository sources under check and
+    the verification code itself"""
+    global _tree_hash
+    if _tree_hash is None:
+        h = hashlib.sha256()
+        roots = [REPO_SRC, os.path.join(HERE, "pyvc"), os.path.join(HERE, "contracts")]
+        for root in roots:
+            for dp, dn, fn in sorted(os.walk(root)):
+                dn.sort()
+                for f in sorted(fn):
+                    if f.endswith((".py", ".txt", ".json", ".csv", ".conf")) and "__pycache__" not in dp:
+                        path = os.path.join(dp, f)
+                        h.update(path.encode())
+                        try:
+                            with open(path, "rb") as fh:
+                                h.update(fh.read())
+                        except OSError:
+                            pass
+        _tree_hash = h.hexdigest()
+    return _tree_hash
+
+
 def exec_unit(args):
+    """symbolic execution is a deterministic function of (sources under check, verification code, unit): its result
+    is cached on disk under that content hash so that C03/C04/C16, which share units, execute them once"""
+    import pickle
+    key, label, pid = args
+    cdir = os.path.join(HERE, ".cache", tree_hash()[:24])
+    cfile = os.path.join(cdir, hashlib.sha256(f"{key}@{label}".encode()).hexdigest()[:32] + ".pkl")
+    res = None
+    if os.environ.get("PYVC_NO_CACHE") != "1" and os.path.exists(cfile):
+        try:
+            with open(cfile, "rb") as f:
+                res = pickle.load(f)
+            res["cached"] = True
+        except Exception:
+            res = None
+    if res is None:
+        res = _exec_unit((key, label, None))
+        if not res.get("crash") and os.environ.get("PYVC_NO_CACHE") != "1":
+            try:
+                os.makedirs(cdir, exist_ok=True)
+                tmp = cfile + f".{os.getpid()}.tmp"
+                with open(tmp, "wb") as f:
+                    pickle.dump(res, f)
+                os.replace(tmp, cfile)
+            except OSError:
+                pass
+    # restrict to the clauses of this property
+    setup_paths()
+    from pyvc.contracts import REGISTRY
+    c = REGISTRY[key]
+    flt = c.ensure_filter(pid) if hasattr(c, "ensure_filter") else None
+    if flt is not None:
+        res = dict(res)
+        res["obligations"] = [ob for ob in res["obligations"]
+                              if ob["kind"] != "post" or flt(ob["name"].split("/post.", 1)[1].split("@")[0].split("#")[0]
+                                                             .replace("raise.", ""))]
+    return res
+
+
+def _exec_unit(args):
     key, label, pid = args
     setup_paths()
     from pyvc.contracts import REGISTRY, verify_contract
@@ -83,17 +148,41 @@ def exec_unit(args):
     try:
         reset_fresh()
         c = REGISTRY[key]
-        cfgs = dict(c.configs_for(pid) if hasattr(c, "configs_for") else c.configs())
+        cfgs = dict(c.configs())
         cfg = cfgs[label]
         snap = c.snapshot(cfg) if hasattr(c, "snapshot") else None
-        flt = c.ensure_filter(pid) if hasattr(c, "ensure_filter") else None
-        rr = verify_contract(c, label, cfg, REPO_SRC, snapshot_root=snap, ensure_filter=flt)
+        rr = verify_contract(c, label, cfg, REPO_SRC, snapshot_root=snap, ensure_filter=None)
         axioms = list(rr.ctx.global_axioms) + list(c.extra_axioms(rr.ctx)) if hasattr(c, "extra_axioms") else \
             list(rr.ctx.global_axioms)
         obs = []
         for ob in rr.obligations:
+            # lemmas are proved from nothing (they must not be used to prove themselves)
+            if ob.kind == "lemma":
+                variants = [solve.obligation_smt2(ob, [])]
+            elif ob.kind == "canary" or not axioms:
+                variants = [solve.obligation_smt2(ob, axioms)]
+            else:
+                # dropping hypotheses is sound for proving: try without the library/definitional axioms first, then
+                # with those sharing a function symbol with the goal, then with everything ('refuted' only counts
+                # for the full variant)
+                # dropping hypotheses is sound for proving.  Variants, weakest first:
+                #  0 hypotheses/axioms sharing a symbol with the goal, let-definitions of large terms left out
+                #  1 the same with the let-definitions   2 all hypotheses, no axioms   3 everything
+                # ('refuted' only counts for the full variant)
+                let_ids = rr.ctx.__dict__.get("let_def_ids", set())
+                gs = _func_symbols(ob.goal, set(), consts=True)
+                pool_ = list(ob.hyps) + list(axioms)
+                near = [h for h in pool_ if _func_symbols(h, set(), consts=True) & gs]
+                near0 = [h for h in near if h.get_id() not in let_ids]
+                variants = []
+                if len(near0) < len(near):
+                    variants.append(solve.obligation_smt2(type(ob)(ob.name, ob.kind, near0, ob.goal), []))
+                if len(near) < len(pool_):
+                    variants.append(solve.obligation_smt2(type(ob)(ob.name, ob.kind, near, ob.goal), []))
+                variants.append(solve.obligation_smt2(ob, []))
+                variants.append(solve.obligation_smt2(ob, axioms))
             obs.append({"name": ob.name, "kind": ob.kind, "meta": ob.meta, "soft": ob.soft,
-                        "smt2": solve.obligation_smt2(ob, axioms), "nhyps": len(ob.hyps)})
+                        "smt2": variants[-1], "variants": variants, "nhyps": len(ob.hyps)})
         return {"key": key, "label": label, "unsupported": rr.unsupported, "exits": rr.exits,
                 "obligations": obs, "stats": rr.ctx.stats, "notes": rr.ctx.notes[:20],
                 "source_file": rr.source_file, "exec_s": time.time() - t0,
@@ -101,6 +190,35 @@ def exec_unit(args):
                 "dropped_calls": rr.ctx.dropped_calls}
     except Exception:
         return {"key": key, "label": label, "crash": traceback.format_exc(), "obligations": [], "exec_s": time.time() - t0}
+
+
+def _func_symbols(t, acc, consts=False):
+    import z3
+    seen = set()
+    stack = [t]
+    while stack:
+        x = stack.pop()
+        if x.get_id() in seen:
+            continue
+        seen.add(x.get_id())
+        if z3.is_quantifier(x):
+            stack.append(x.body())
+            continue
+        if z3.is_app(x):
+            d = x.decl()
+            if d.kind() == z3.Z3_OP_UNINTERPRETED and (consts or d.arity() > 0):
+                acc.add(d.name())
+            stack.extend(x.children())
+    return acc
+
+
+def relevant_axioms(goal, axioms):
+    gs = _func_symbols(goal, set())
+    out = []
+    for a in axioms:
+        if _func_symbols(a, set()) & gs:
+            out.append(a)
+    return out
 
 
 def run_property(pid, tier="quick", seed=0, verbose=True, only_unit=None):
@@ -115,19 +233,43 @@ def run_property(pid, tier="quick", seed=0, verbose=True, only_unit=None):
     unit_results = list(pool.imap_unordered(exec_unit, [(k, l, pid) for k, l in units], chunksize=1))
     unit_results.sort(key=lambda u: (u["key"], u["label"]))
     exec_s = time.time() - t0
-    # stage 2: discharge
-    jobs = []
-    for u in unit_results:
-        for ob in u["obligations"]:
-            is_canary = ob["kind"] == "canary"
-            jobs.append((ob["name"], ob["smt2"], solve.Z3_RLIMIT if not is_canary else 4000000,
-                         solve.Z3_TIMEOUT_MS if not is_canary else 20000))
+    # stage 2: discharge (variant by variant; an obligation leaves the queue as soon as one variant is proved)
     t1 = time.time()
     verdicts = {}
-    for name, verdict, dt, be, reason, rl in pool.imap_unordered(solve._solve_z3_text, jobs, chunksize=1):
-        verdicts[name] = {"verdict": verdict, "time_s": dt, "backend": be, "reason": reason, "rlimit": rl}
     kinds = {ob["name"]: ob["kind"] for u in unit_results for ob in u["obligations"]}
-    texts = {ob["name"]: ob["smt2"] for u in unit_results for ob in u["obligations"]}
+    allobs = {ob["name"]: ob for u in unit_results for ob in u["obligations"]}
+    pending = list(allobs)
+    stage = 0
+    while pending:
+        jobs = []
+        for n in pending:
+            ob = allobs[n]
+            vs = ob["variants"]
+            if stage >= len(vs):
+                continue
+            is_canary = ob["kind"] == "canary"
+            last = stage == len(vs) - 1
+            jobs.append((n, vs[stage], solve.Z3_RLIMIT if not is_canary else 1500000,
+                         (solve.Z3_TIMEOUT_MS if last else (8000 if stage == 0 else 20000)) if not is_canary else 1500))
+        if not jobs:
+            break
+        nxt = []
+        for name, verdict, dt, be, reason, rl in pool.imap_unordered(solve._solve_z3_text, jobs, chunksize=1):
+            ob = allobs[name]
+            last = stage == len(ob["variants"]) - 1
+            prev = verdicts.get(name)
+            tsum = dt + (prev["time_s"] if prev else 0.0)
+            if verdict == "proved" or last:
+                verdicts[name] = {"verdict": verdict, "time_s": tsum, "backend": be, "reason": reason, "rlimit": rl,
+                                  "variant": stage}
+            else:
+                # 'sat'/'unknown' on a weakened hypothesis set decides nothing
+                verdicts[name] = {"verdict": "unknown", "time_s": tsum, "backend": be, "reason": "weakened variant",
+                                  "rlimit": rl, "variant": stage}
+                nxt.append(name)
+        pending = nxt
+        stage += 1
+    texts = {n: ob["smt2"] for n, ob in allobs.items()}
     retry = [(n, texts[n], solve.CVC5_TIMEOUT_MS) for n, v in verdicts.items()
              if kinds[n] != "canary" and (v["verdict"] == "unknown" or tier == "thorough")]
     for name, verdict, dt, be, reason, rl in pool.imap_unordered(solve._solve_cvc5_text, retry, chunksize=1):
